@@ -304,7 +304,8 @@ def check_stmt(case):
     boundary = bool(labels)
     labels.add("stmt")
     differ = False
-    allowed = _allowed()
+    # G-stmt may redefine a macro whose default calls the earlier definition of the same name: unbounded recursion on both sides
+    allowed = _allowed() + (RecursionError,)
     for mode in case["modes"]:
         m = mode["m"]
         if m == "static":
